@@ -6,14 +6,14 @@ LEVEL_TEXT = ("K: canonicity predicates on all 256 input bits (real ed25519_ref1
               "the modular reduction, expand_message_xmd layout.")
 TRUSTED = ["CBMC 6.11 + uninterpreted functions", "abstract group model (stubs/ideal_ed25519.c)", "L and p constants transcribed in the harness"]
 ASSUMPTIONS = ["scalar_add/sub: inputs reduced (as documented)", "scalar_random: accepted within 2 draws"]
-OUTSIDE = ["exactness of point addition/doubling/decoding/scalar multiplication against arithmetic on the curve (the Edwards formulas and the square-root chain; the field kernels they are made of ARE decided: E2 limb mode)",
+OUTSIDE = ["the scalar-multiplication ALGORITHMS (signed-window recoding, table construction and constant-time look-ups) and point decoding (square-root chain): the group operations they are built from (add/sub cached and precomp, doubling, conversions, neutral element) ARE decided against the addition law (E2 ring mode), the field kernels under them by E2 limb mode",
            "sc25519_reduce / mul / muladd: the value before serialisation lying in [0, 2^256) and the output being the canonical representative (< L) -- the congruence mod L, the absence of int64 overflow for all inputs and the inversion exponent ARE decided (E2 limb mode)",
            "Elligator / Ristretto maps and the Ristretto encode/decode formulas (abstract here)", "main-subgroup test"]
 CORE = ["crypto_core/ed25519/core_ed25519.c", "crypto_scalarmult/ed25519/ref10/scalarmult_ed25519_ref10.c", "sodium/utils.c", "crypto_verify/verify.c"]
 STUBS = ["ideal_ed25519.c", "ideal_hash.c", "rng.c", "misuse.c", "libc.c", "x86_builtins.c"]
 
 
-E2_LIMB = ["fe25519-51", "sc25519", "sc25519-invert"]
+E2_LIMB = ["fe25519-51", "sc25519", "sc25519-invert", "edwards-group-ops"]
 
 
 LEVEL_TEXT = LEVEL_TEXT + (" Field kernels (E2 irsym limb mode): fe25519_mul/sq/sq2/mul32/add/sub/neg of the Edwards unit == the field operation mod 2^255-19 with limb bounds, for all limbs in the stated ranges."
